@@ -85,3 +85,6 @@ META["C07"] = {
     "technique": "Coq proof + four-way correspondence (real engine long-lived / per-request, model long-lived / per-request) by vm_compute",
 }
 META["C08"] = dict(META["C07"], design_ref="DESIGN.md section 6 C08")
+
+for _p in ("C03", "C05", "C06", "C17", "C18", "C20"):
+    META[_p] = dict(META["C07"], design_ref="DESIGN.md section 6 " + _p)
